@@ -822,7 +822,7 @@ func (fc *FontConfigurationPango) splitFirstLine(hyphenCache map[HyphenDictKey]h
 			layout.Layout.SetWidth(-1)
 			firstLine, _ = layout.GetFirstLine()
 			resumeIndex = len([]rune(newFirstLineText))
-			if text[resumeIndex] == softHyphen {
+			if resumeIndex < len(text) && text[resumeIndex] == softHyphen {
 				resumeIndex += 1
 			}
 		}
